@@ -297,6 +297,28 @@ class Sym:
         copies of a `?` give `r` several definitions)"""
         if t[0] == "field" and t[2] == 0:
             d = strip(t[1])
+            if d[0] == "downcast" and d[2] in ("Some", "Ok", "Err") and strip(d[1])[0] == "var" and self.path_blocks is None:
+                # `(v as Some).0` where v is a local whose definitions are all literal variants (an expanded helper's
+                # `return None` / `Some(x)`) and exactly one of them is a `Some`: that one's payload — the projection is
+                # only evaluated when v is that variant
+                v_ = strip(d[1])
+                tm_ = self.an.terms
+                if not tm_.defs.partial[v_[1]] and 2 <= len(tm_.defs.whole[v_[1]]) <= 4:
+                    pays = []
+                    okv = True
+                    for dd in tm_.defs.whole[v_[1]]:
+                        try:
+                            x_ = strip(self._def_term(dd))
+                        except Exception:
+                            okv = False
+                            break
+                        if not (x_[0] == "aggr" and x_[1].endswith(("option::Option::Some", "option::Option::None", "result::Result::Ok", "result::Result::Err"))):
+                            okv = False
+                            break
+                        if x_[1].endswith("::" + d[2]) and len(x_[2]) == 1:
+                            pays.append(x_[2][0])
+                    if okv and len(pays) == 1:
+                        return strip(pays[0])
             if d[0] == "downcast" and d[2] in ("Some", "Ok"):
                 m_ = strip(d[1])
                 if m_[0] == "call" and short(m_[1]) in ("Option::<T>::map", "Result::<T, E>::map") and len(m_[2]) == 2:
@@ -2174,6 +2196,18 @@ class Sym:
             # `opt.map(f)` / `res.map(f)` has the variant of its receiver
             while inner[0] == "call" and short(inner[1]) in ("Option::<T>::map", "Result::<T, E>::map") and len(inner[2]) == 2:
                 inner = strip(inner[2][0])
+            kr_ = self.known_result(inner) if inner[0] == "var" and self.fresh_result_var(inner[1]) else None
+            if kr_ in ("Some", "None") and tyname and tyname.endswith("option::Option"):
+                # a value this path has just built (an expanded helper's `Some(v)` / `None`): the test is decided
+                some = (rel == "in" and vs == [1]) or (rel == "notin" and vs == [0])
+                none = (rel == "in" and vs == [0]) or (rel == "notin" and vs == [1])
+                if some or none:
+                    return [] if (kr_ == "Some") == some else [("false",)]
+            if kr_ in ("Ok", "Err") and tyname and tyname.endswith("result::Result"):
+                ok = (rel == "in" and vs == [0]) or (rel == "notin" and vs == [1])
+                er = (rel == "in" and vs == [1]) or (rel == "notin" and vs == [0])
+                if ok or er:
+                    return [] if (kr_ == "Ok") == ok else [("false",)]
             if tyname and (tyname.startswith("std::option::Option") or tyname.startswith("core::option::Option")):
                 some = (rel == "in" and vs == [1]) or (rel == "notin" and vs == [0])
                 none = (rel == "in" and vs == [0]) or (rel == "notin" and vs == [1])
@@ -2462,6 +2496,29 @@ class Sym:
             if x[1].endswith(("result::Result::Ok", "result::Result::Err", "option::Option::Some", "option::Option::None")):
                 return v
         return None
+
+    def fresh_result_var(self, l):
+        """a local that only ever holds literal Option/Result variants and is not carried around a loop (the result of an
+        expanded helper: all its definitions lie in the same loops) — as opposed to an accumulator such as
+        `let mut seen = None; loop { .. seen = Some(x) }`"""
+        tm = self.an.terms
+        ds = tm.defs.whole[l]
+        if tm.defs.partial[l] or len(ds) < 2:
+            return False
+        sig = None
+        for d in ds:
+            try:
+                x = strip(self._def_term(d))
+            except Exception:
+                return False
+            if not (x[0] == "aggr" and x[1].endswith(("option::Option::Some", "option::Option::None", "result::Result::Ok", "result::Result::Err"))):
+                return False
+            lps = frozenset(self.loops_containing(d[0]))
+            if sig is None:
+                sig = lps
+            elif sig != lps:
+                return False
+        return True
 
     def known_payload(self, x):
         """payload term of a known Ok(..) / Some(..) on the current path"""
